@@ -292,19 +292,24 @@ func c15Exec(mode string, hist []c15Ev) (string, string, string) {
 	for i, d := range ds {
 		fmt.Fprintf(&b, "d%d:%s,%s,%d,%d,%d|", i, d.backend, d.pinned, rel(d.lo), rel(d.hi), d.est)
 	}
-	tb := x.w.S.Proxies()[0].dialogBasedBackends
 	nowT := vtime.Base().Add(time.Duration(now))
+	pins, sweep, ok1 := wbDialogTable(x.w.S.Proxies()[0])
+	rot, ok2 := wbRotation(x.w.S.RoundRobins()[0])
+	if !ok1 || !ok2 {
+		b.WriteString("wb:" + wbDump(x.w.S.Proxies()[0]) + wbDump(x.w.S.RoundRobins()[0]))
+		return b.String(), "", ""
+	}
 	var keys []string
 	ntx := 0
-	for k, v := range tb.backends {
-		if strings.Contains(k, "z9hG4bK") {
+	for _, pin := range pins {
+		if strings.Contains(pin.Key, "z9hG4bK") {
 			ntx++
 			continue
 		}
-		keys = append(keys, fmt.Sprintf("%s=%s@%d", k, v.backend.GetAddress(), v.expire.Sub(nowT).Milliseconds()))
+		keys = append(keys, fmt.Sprintf("%s=%s@%d", pin.Key, pin.Backend, pin.Expire.Sub(nowT).Milliseconds()))
 	}
 	sort.Strings(keys)
-	fmt.Fprintf(&b, "%s|ntx=%d|clean=%d|rr=%d", strings.Join(keys, ";"), ntx, tb.nextCleanTime.Sub(nowT).Milliseconds(), x.w.S.RoundRobins()[0].index)
+	fmt.Fprintf(&b, "%s|ntx=%d|clean=%d|rr=%d", strings.Join(keys, ";"), ntx, sweep.Sub(nowT).Milliseconds(), rot.Index)
 	// the sweep schedule depends on when traffic last flowed
 	return b.String(), "", ""
 }
@@ -320,9 +325,13 @@ func c15Invariant(x *c15World, T int64, desc string) (string, string) {
 	}
 	now := x.now()
 	nowT := vtime.Base().Add(time.Duration(now))
-	tb := x.w.S.Proxies()[0].dialogBasedBackends
-	for k, v := range tb.backends {
-		age := nowT.Sub(v.expire).Nanoseconds()
+	pins, _, ok := wbDialogTable(x.w.S.Proxies()[0])
+	if !ok {
+		return "", "" // white-box clause not available on this tree (reported as a cap); the pin-lifetime clauses still judge
+	}
+	for _, pin := range pins {
+		k := pin.Key
+		age := nowT.Sub(pin.Expire).Nanoseconds()
 		if age <= 2*T {
 			continue
 		}
@@ -341,7 +350,7 @@ func c15Invariant(x *c15World, T int64, desc string) (string, string) {
 			prev = t
 		}
 		if ok {
-			return "expired-pin-not-purged", fmt.Sprintf("%s: entry %q expired %.3f s ago (more than two dialog-timeout periods of %d s) although traffic has been flowing with gaps <= %d s ever since; table holds %d entries", desc, k, float64(age)/1e9, c15T, c15T/2, len(tb.backends))
+			return "expired-pin-not-purged", fmt.Sprintf("%s: entry %q expired %.3f s ago (more than two dialog-timeout periods of %d s) although traffic has been flowing with gaps <= %d s ever since; table holds %d entries", desc, k, float64(age)/1e9, c15T, c15T/2, len(pins))
 		}
 	}
 	return "", ""
@@ -381,8 +390,11 @@ func c15LongRun(c *Ctx, n int, poison bool) {
 		x.w.S.W.Advance(step)
 		c.Res.Executions++
 	}
-	tb := x.w.S.Proxies()[0].dialogBasedBackends
-	peak := len(tb.backends)
+	tableLen := func() int {
+		pins, _, _ := wbDialogTable(x.w.S.Proxies()[0])
+		return len(pins)
+	}
+	peak := tableLen()
 	// now only traffic ticks: one unrelated request per second for 3T + 5 s
 	for s := 0; s < 3*c15T+5; s++ {
 		x.w.S.W.Advance(1e9)
@@ -396,9 +408,10 @@ func c15LongRun(c *Ctx, n int, poison bool) {
 	c.Res.Evaluations++
 	c.Res.Nontrivial++
 	c.Count(fmt.Sprintf("long_run_peak_entries_huge_%v", poison), int64(peak))
-	c.Count(fmt.Sprintf("long_run_final_entries_huge_%v", poison), int64(len(tb.backends)))
-	if len(tb.backends) > peak/4+50 {
-		c.Violate("table-does-not-shrink|"+fmt.Sprintf("huge-expires=%v", poison), "table-does-not-shrink", fmt.Sprintf("%s: %d entries at the peak, still %d entries %d s later with continuous traffic", name, peak, len(tb.backends), 3*c15T+5), c15Case{fmt.Sprintf("long:%d:%v", n, poison), nil})
+	final := tableLen()
+	c.Count(fmt.Sprintf("long_run_final_entries_huge_%v", poison), int64(final))
+	if final > peak/4+50 {
+		c.Violate("table-does-not-shrink|"+fmt.Sprintf("huge-expires=%v", poison), "table-does-not-shrink", fmt.Sprintf("%s: %d entries at the peak, still %d entries %d s later with continuous traffic", name, peak, final, 3*c15T+5), c15Case{fmt.Sprintf("long:%d:%v", n, poison), nil})
 	}
 }
 
